@@ -128,8 +128,30 @@ func scramble(root interface{}) (n int) {
 				}
 			}
 		case reflect.Slice:
-			for i := 0; i < v.Len(); i++ {
-				walk(v.Index(i))
+			// also the spare capacity: two holders that append to "their"
+			// slice write into it
+			full := v
+			if v.Cap() > v.Len() {
+				full = v.Slice3(0, v.Cap(), v.Cap())
+			}
+			for i := 0; i < full.Len(); i++ {
+				if i >= v.Len() {
+					// hidden element: give it a non-zero value
+					e := full.Index(i)
+					switch e.Kind() {
+					case reflect.String:
+						e.SetString("hidden!scr")
+						n++
+					case reflect.Int, reflect.Int8, reflect.Int16, reflect.Int32, reflect.Int64:
+						e.SetInt(0x5555)
+						n++
+					case reflect.Ptr:
+						e.Set(reflect.New(e.Type().Elem()))
+						n++
+					}
+					continue
+				}
+				walk(full.Index(i))
 			}
 		case reflect.Array:
 			for i := 0; i < v.Len(); i++ {
@@ -319,8 +341,25 @@ func runC14(k int, rng *Rng) CaseResult {
 		// mutate what a read returned; later reads must not change
 		a1 := addrs(r1)
 		scramble(r1)
+		// appending to a returned slice must stay private as well
+		r1.Tags = append(r1.Tags, "appended-by-reader-1")
+		r1.Subs = append(r1.Subs, &Sub{V: 4242})
 		r2, n2 := read(rng.Intn(5))
 		if r2 == nil {
+			break
+		}
+		// what r2's own appends would expose: the element right after its length
+		probeTags, probeSubs := "", -1
+		if cap(r2.Tags) > len(r2.Tags) {
+			probeTags = r2.Tags[:len(r2.Tags)+1][len(r2.Tags)]
+		}
+		if cap(r2.Subs) > len(r2.Subs) {
+			if e := r2.Subs[:len(r2.Subs)+1][len(r2.Subs)]; e != nil {
+				probeSubs = e.V
+			}
+		}
+		if probeTags == "appended-by-reader-1" || probeTags == "hidden!scr" || probeSubs == 4242 {
+			w.fail("alias", n1+"->"+n2, "spare-capacity", fmt.Sprintf("the spare capacity of a slice returned by a read holds what another holder wrote there (Tags:%q Subs.V:%d): the backing array is shared", probeTags, probeSubs))
 			break
 		}
 		if g := canonJSON(r2); g != snap {
